@@ -5,8 +5,10 @@ socket is served by a *forked child* = a node: exactly a fresh process that
 has imported sqlfluff and nothing else (no dialect module, no config load,
 no progress bar, so single-threaded and with empty caches).
 
-usage: python -B -m vsim.zygote <socket path>
-Exits when its stdin reaches EOF (the harness process went away).
+usage: python -B -m vsim.zygote <socket path> [owner pid]
+Without an owner pid it exits when its stdin reaches EOF (the harness process went away);
+with one (a zygote shared by all batch workers of one harness run) it exits when that
+process is gone or when its socket file is removed.
 """
 
 from __future__ import annotations
@@ -16,6 +18,44 @@ import select
 import signal
 import socket
 import sys
+
+
+def _immortalize_everything(gc) -> int:
+    """Mark every object alive now as immortal (PEP 683: refcount low word = 0xFFFFFFFF).
+
+    Why: a node is a fork of this process. Merely *reading* an inherited object writes its
+    reference count, i.e. copy-on-write faults on nearly every inherited page - and in this
+    sandbox COW faults are serialised across all processes (measured: 8 forked readers of a
+    40 MB heap take 37 s instead of 2 s; with immortal objects 5.6 s). Immortal objects are
+    never written by Py_INCREF/Py_DECREF, so nodes share the zygote's pages. This changes
+    memory management only (these objects are never freed), not Python semantics.
+    """
+    import ctypes
+
+    if sys.version_info < (3, 12) or ctypes.sizeof(ctypes.c_ssize_t) != 8:
+        return 0
+    seen: set = set()
+    stack = list(gc.get_objects())
+    get_referents = gc.get_referents
+    while stack:
+        o = stack.pop()
+        i = id(o)
+        if i in seen:
+            continue
+        seen.add(i)
+        try:
+            stack.extend(get_referents(o))
+        except Exception:
+            pass
+    skip = {id(seen), id(stack)}
+    ssz = ctypes.c_ssize_t
+    n = 0
+    for i in seen:
+        if i in skip:
+            continue
+        ssz.from_address(i).value = 0xFFFFFFFF
+        n += 1
+    return n
 
 
 def main() -> None:
@@ -49,6 +89,8 @@ def main() -> None:
     import gc
 
     gc.collect()
+    if os.environ.get("VSIM_IMMORTAL", "0") == "1":
+        _immortalize_everything(gc)
     gc.freeze()  # collector bookkeeping only: keeps forks from COW-touching every object
 
     src = os.path.dirname(os.path.dirname(os.path.abspath(sqlfluff.__file__)))
@@ -62,23 +104,42 @@ def main() -> None:
     signal.signal(signal.SIGCHLD, signal.SIG_IGN)  # auto-reap nodes
     sys.stdout.write("READY %s %s\n" % (os.environ.get("PYTHONHASHSEED", "?"), src))
     sys.stdout.flush()
+    owner = int(sys.argv[2]) if len(sys.argv) > 2 else 0
     stdin_fd = sys.stdin.fileno()
+    with open(sockpath + ".pid", "w") as f:
+        f.write(str(os.getpid()))
     while True:
-        r, _, _ = select.select([srv, stdin_fd], [], [])
-        if stdin_fd in r:
-            if not os.read(stdin_fd, 4096):
+        if owner:
+            r, _, _ = select.select([srv], [], [], 2.0)
+            try:
+                os.kill(owner, 0)
+            except ProcessLookupError:
                 break
+            except PermissionError:
+                pass
+            if not os.path.exists(sockpath):
+                break
+        else:
+            r, _, _ = select.select([srv, stdin_fd], [], [])
+            if stdin_fd in r:
+                if not os.read(stdin_fd, 4096):
+                    break
         if srv in r:
             conn, _ = srv.accept()
             pid = os.fork()
             if pid == 0:
                 try:
                     srv.close()
-                    os.close(stdin_fd)
+                    if not owner:
+                        os.close(stdin_fd)
                     node.serve(conn, sockpath)
                 finally:
                     os._exit(0)
             conn.close()
+    try:
+        os.unlink(sockpath + ".pid")
+    except OSError:
+        pass
     try:
         os.unlink(sockpath)
     except OSError:
